@@ -56,6 +56,7 @@ struct SF : public STEPfile {
     using STEPfile::CreateScopeInstances;
     using STEPfile::ReadScopeInstances;
     using STEPfile::ReadData1;
+    using STEPfile::ReadData2;
     using STEPfile::FindDataSection;
     int notCreated() const { return _entsNotCreated; }
     int invalid() const { return _entsInvalid; }
@@ -288,6 +289,22 @@ static int run_fn() {
             if( fn == "readdata1w" ) sf.SetFileType( WORKING_SESSION );
             int cnt = sf.ReadData1( in );
             r << "ok cnt=" << cnt << " nc=" << sf.notCreated() << " " << obs( in );
+            im.DeleteInstances();
+        } else if( fn == "readdata2" ) {
+            // both passes over the bytes of a DATA section: pass 1 creates the instances (their ids are reported: they are
+            // the model's look-up oracle), pass 2 (ReadData2 -> ReadInstance) is what is observed
+            InstMgr im; SF sf( reg, im );
+            std::istringstream hdr( "HEADER;FILE_DESCRIPTION((''),'2;1');FILE_NAME('','',(''),(''),'','','');FILE_SCHEMA(('C05A'));ENDSEC;" );
+            sf.ReadHeader( hdr );
+            std::istringstream in1( bytes );
+            sf.ReadData1( in1 );
+            r << "ok ids=";
+            for( int i = 0; i < im.InstanceCount(); i++ ) {
+                r << ( i ? "," : "" ) << im.GetSTEPentity( i )->StepFileId();
+            }
+            std::istringstream in2( bytes );
+            int valid = sf.ReadData2( in2, true );
+            r << " cnt=" << valid << " nc=" << sf.invalid() << " " << obs( in2 );
             im.DeleteInstances();
         } else if( fn == "hdrkw" ) {
             // a header section whose first entity keyword has <arg> characters
